@@ -41,5 +41,11 @@ pub fn autoplay(millis: u64) {
             None => break,
         };
         game.push_history(next_move);
+
+        // Same limit as the UCI interface: the per-ply state stack holds 512 entries and has
+        // to fit the game so far plus the search on top of it
+        if game.len() >= 400 {
+            break;
+        }
     }
 }
